@@ -42,3 +42,38 @@ PROPS['C14'] = dict(
     level_note='Trusted: Coq kernel, extraction, harness/generator. Not modelled (covered by the correspondence run only): growth of the backing array and the size hint, the 100-byte chunking of line reads from the file part, the chunk sizes in which ReadFrom pulls from its source, the OS file position; maxTotalBytes is not exercised. WriteTo/ReadByte are outside the property.',
     assumptions=['os.File ReadAt/WriteAt/Seek+CopyN behave as a byte array', 'EOF convention: a read/peek of k bytes reports io.EOF exactly when fewer than k bytes were left (legal io.Reader behaviour, theorem C14_end_of_data_contract)'],
 )
+
+def c17_project(case, impl):
+    """what the implementation says about acceptance, in the vocabulary of the specification"""
+    f = case.split()
+    spec = int(f[1])
+    if impl.startswith('PANIC'):
+        return 'PANIC'
+    if spec == 0:
+        return None
+    if impl.startswith('err'):
+        return 'acc=0'
+    kinds = [k for k in impl.split(';f=')[1].split(';')[0].split(',') if k]
+    if spec == 2:
+        return 'acc=1'
+    return 'acc=1' if all(k == 'ut' for k in kinds) else 'acc=0'
+
+def c17_classify(case, impl, model, spec):
+    if 'PANIC' in impl:
+        return 'panic'
+    return 'accepts-malformed' if spec == 'acc=0' else 'rejects-wellformed'
+
+PROPS['C17'] = dict(
+    id='C17',
+    domains=['validate'],
+    n=dict(quick=2000, thorough=100000),
+    theorems=[('Properties.C17', ['C17_table_is_reference', 'C17_strict_accepts_iff_spec', 'C17_warn_returns_record_with_all_defects', 'C17_warn_findings_iff_strict_rejects', 'C17_no_defect_iff_accepted', 'C17_ignore_no_findings'])],
+    classify=c17_classify,
+    spec_project=c17_project,
+    rule='(1) exhaustive: every known field x 9 record types (8 + unknown) x 3 versions (1.0, 1.1, unknown) x multiplicity {1,2} x {valid, invalid} value, policies alternating warn/fail = 5184 header sets; (2) seeded random header sets with missing mandatory fields, 0-4 extra fields with valid/invalid values, shuffled; distinct = distinct implementation observations; non-trivial = validation went past the record-type resolution',
+    nontrivial=lambda c, o: not o.startswith('err:mt') and not o.startswith('err:ut'),
+    stats=lambda c, o: ['spec:%s' % c.split()[1], o.split(';')[0].split(':')[0]] + (['finding:' + k for k in set(o.split(';f=')[1].split(';')[0].split(',')) if k] if ';f=' in o else []),
+    level_text='Proved in Coq for every header set WarcFields can hold (canonical names), every WARC version id, every setting of the unknown-type axis and every behaviour of the value-syntax oracles: strict validation accepts exactly when the property\'s conditions hold (C17_strict_accepts_iff_spec); under warn the record is returned and the findings are exactly the list of defects, so exactly the rejected header sets produce findings (C17_warn_*); ignore produces none. The field table the model runs on is regenerated from headerfielddef.go on every run and proved equal to the hand-transcribed reference table (C17_table_is_reference); the executable specification is evaluated over the reference table. Model tied to validateHeader by an exhaustive field x type x version x multiplicity x valid/invalid sweep plus random multi-defect header sets.',
+    level_note='Trusted: Coq kernel, extraction, the field-table translator (go/ast), harness. Oracles: time.Parse(RFC3339), net.ParseIP, whatwg-url parsing, strings.ToLower on non-ASCII. "Well-formed" for time/IP/URI IS the oracle; integers and bracketed ids are modelled exactly. The reference table is the pinned table, not ISO 28500 (not available offline). Findings are compared by coarse kind derived from the error text.',
+    assumptions=['header sets are canonical (every name went through WarcFields.Add)', 'reference table = the table at the pinned commit'],
+)
